@@ -213,6 +213,8 @@ class PropertyCheck:
 
     # ----- machinery
     def run_impl(self, scenario: Scenario) -> tuple[list[str], list[Failure]]:
+        import impl as _impl_mod
+        _impl_mod.REUSE_OPERATIONS = bool(scenario.meta.get("reuse_ops"))
         impl = self.make_impl(scenario)
         outs: list[str] = []
         fails: list[Failure] = []
